@@ -132,6 +132,22 @@ func (f *Func) defs() map[types.Object]*defInfo {
 		}
 		return true
 	})
+	// a definition that mentions the variable itself (x = append(x, ...),
+	// x = x + 1) is not a closed-form origin
+	for o, d := range m {
+		for _, ex := range d.exprs {
+			self := false
+			ast.Inspect(ex, func(n ast.Node) bool {
+				if id, ok := n.(*ast.Ident); ok && info.Uses[id] == o {
+					self = true
+				}
+				return !self
+			})
+			if self {
+				d.dirty = true
+			}
+		}
+	}
 	root.defCache = m
 	return m
 }
